@@ -342,9 +342,71 @@ def r4_replay_existing(repo=None):
     return r
 
 
+def r5_identical_content(repo=None):
+    """'... exists at the same relative path under the destination with identical content; a file appears under its final name
+    only when complete'.  Two structural necessary conditions: (a) the test by which mirror_to_dest decides that a file is already
+    mirrored compares *content* - `filecmp.cmp` with `shallow=False` (the default compares type, size and modification time only,
+    and copy2 copies the modification time after the bytes: a file written to during the copy is stale with equal size and time);
+    (b) a staging function never takes an existing staging file for its own work: in every callable class used as the mirror
+    function, a handler for FileExistsError around a link / copy call must replace the file (remove + link / copy again), not
+    swallow the error - the rename that follows would publish whatever an interrupted run left there."""
+    r = Rule("C17.R5", "a file is taken as mirrored only on equal content, and a left-over staging file is never published")
+    m = pyfront.mod("mirror", repo)
+    q = HD + ".mirror_to_dest"
+    f = m.flat(q).fn()
+    cmps = [c for c in ast.walk(f) if isinstance(c, ast.Call) and (pyfront.call_name(c) or "").startswith("filecmp.")]
+    if not cmps:
+        raise AnalysisError("%s: no filecmp call found (the already-mirrored test)" % q)
+    for c in cmps:
+        site = "%s:%s %s `%s`" % (m.rel, c.lineno, q, norm(ast.unparse(c))[:70])
+        if pyfront.call_name(c) == "filecmp.cmp":
+            sh = pyfront.kwarg(c, "shallow")
+            if sh is None and len(c.args) >= 3:
+                sh = c.args[2]
+            if sh is not None and pyfront.const(sh) is False:
+                r.ok(site, "compares the bytes (shallow=False)")
+            else:
+                r.violation(m.rel, q, norm(ast.unparse(c))[:80],
+                            "the already-mirrored test compares type, size and modification time only (filecmp's default): copy2 copies "
+                            "the time after the bytes, so a metadata or properties file written to during the copy keeps old bytes in "
+                            "the destination with the new time and every later `modified` event is skipped", line=c.lineno)
+        else:
+            raise AnalysisError("%s: comparison `%s` not recognised" % (q, norm(ast.unparse(c))[:60]))
+    # (b) callable classes used as mirror functions
+    n_cls = 0
+    for cname, cnode in m.classes.items():
+        meths = {x.name: x for x in cnode.body if isinstance(x, ast.FunctionDef)}
+        call = meths.get("__call__")
+        if call is None:
+            continue
+        prims = [c for c in ast.walk(call) if isinstance(c, ast.Call) and pyfront.call_name(c) in ("os.link", "os.symlink", "shutil.copy2", "shutil.copy", "shutil.copyfile")]
+        if not prims:
+            continue
+        n_cls += 1
+        handlers = [h for t in ast.walk(call) if isinstance(t, ast.Try) for h in t.handlers
+                    if h.type is not None and "FileExistsError" in norm(ast.unparse(h.type))]
+        if not handlers:
+            r.ok("%s:%s %s.__call__" % (m.rel, call.lineno, cname), "no handler treats an existing staging file as already done")
+        for h in handlers:
+            redo = [c for c in ast.walk(h) if isinstance(c, ast.Call) and pyfront.call_name(c) in ("os.link", "os.symlink", "shutil.copy2", "shutil.copy", "shutil.copyfile", "os.replace")]
+            raises = any(isinstance(x, ast.Raise) for x in ast.walk(h))
+            if redo or raises:
+                r.ok("%s:%s %s.__call__ except FileExistsError" % (m.rel, h.lineno, cname), "an existing staging file is replaced (%s)" % (
+                    ", ".join(pyfront.call_name(c) for c in redo) or "re-raised"))
+            else:
+                r.violation(m.rel, cname + ".__call__", "except FileExistsError: %s" % norm(ast.unparse(h.body[0]))[:40],
+                            "an existing destination of the staging step is taken for this run's own link; the destination given to the "
+                            "mirror function is always the `tmp.` staging name, so what exists there is left over from an interrupted "
+                            "mirror and the rename that follows publishes it under the final name", line=h.lineno)
+    if n_cls == 0:
+        r.note("no callable class is used as mirror function")
+    r.guard(2)
+    return r
+
+
 def rules(repo=None):
     return [lambda: r1_staged_publication(repo), lambda: r2_errors_contained(repo), lambda: r3_handler_configuration(repo),
-            lambda: r4_replay_existing(repo)]
+            lambda: r4_replay_existing(repo), lambda: r5_identical_content(repo)]
 
 
 EXPLANATION = (
